@@ -20,14 +20,20 @@ import (
 var excl = os.Getenv("VERIF_MODE") != "replay"
 
 type Case struct {
-	Tree     *dgen.Node // root object
-	Enc      string     // json yaml toml cue
-	ViaFile  bool       // -o out.<ext> instead of --out
-	Escape   bool
-	Expr     string // -e path ("" = whole package)
-	Package  bool   // package clause + package argument instead of file argument
-	Split    bool   // two files
-	Broken   string // "" | nonconcrete | error | tomlnull
+	Tree    *dgen.Node // root object
+	Enc     string     // json yaml toml cue
+	ViaFile bool       // -o out.<ext> instead of --out
+	Escape  bool
+	Expr    string // -e path ("" = whole package)
+	Package bool   // package clause + package argument instead of file argument
+	Split   bool   // two files
+	Broken  string // "" | nonconcrete | error | tomlnull
+	// Qualifier: a boolean tag of the output file type appended to the encoding (--out yaml+indentSequences=false);
+	// it changes the layout only, never the data
+	Qualifier string
+	// Overwrite: with -o, the output file already exists and is longer than what is about to be
+	// written (an earlier, larger export); --force must replace it completely
+	Overwrite bool
 }
 
 func cueBin() string {
@@ -176,6 +182,23 @@ func runCase(c Case) (res evid.Result) {
 		res.Skip, res.Excluded = true, e
 		return
 	}
+	if excl {
+		// known finding F83: cue import writes a leading key "package" or "import" unquoted, which the
+		// parser reads as a package clause or import declaration: the imported file does not parse.
+		// Region: the exported value is an object with such a key (it is the first one in some order).
+		root := c.Tree
+		if c.Expr != "" {
+			if sub := lookup(c.Tree, c.Expr); sub != nil {
+				root = sub
+			}
+		}
+		for _, f := range root.O {
+			if f.K == "package" || f.K == "import" {
+				res.Skip, res.Excluded = true, "NoLeadingPackageOrImportKey(F83)"
+				return
+			}
+		}
+	}
 	dir := scratch()
 	defer os.RemoveAll(dir)
 	// write the package: independent CUE rendering, one or two files
@@ -285,6 +308,26 @@ func runCase(c Case) (res evid.Result) {
 	var text string
 	if c.ViaFile {
 		expArgs = append(expArgs, "-o", outFile)
+		if c.Overwrite {
+			// an earlier export of a larger value to the same path: the same package with one more big field
+			big := filepath.Join(dir, "big.cue")
+			os.WriteFile(big, []byte(pkg+"\"zzzz_earlier_export\": [\""+strings.Repeat("x", 300)+"\", {\"p\": 1, \"q\": [1, 2, 3]}]\n"), 0o644)
+			firstArgs := append([]string{}, expArgs...)
+			if !c.Package {
+				firstArgs = append(append([]string{"export"}, append(append([]string{}, args...), "big.cue")...), expArgs[1+len(args):]...)
+			}
+			if c.Expr == "" {
+				if _, _, fc := run(dir, firstArgs...); fc != 0 {
+					// could not produce the earlier export (for example TOML and a mixed list): fall back to filler
+					os.WriteFile(filepath.Join(dir, outFile), []byte(strings.Repeat("# filler line of an older file\n", 200)), 0o644)
+				}
+			} else {
+				os.WriteFile(filepath.Join(dir, outFile), []byte(strings.Repeat("# filler line of an older file\n", 200)), 0o644)
+			}
+			os.Remove(big)
+			expArgs = append(expArgs, "--force")
+			res.Classes = append(res.Classes, "overwrite")
+		}
 		_, eerr, ecode := run(dir, expArgs...)
 		if ecode != 0 {
 			if c.Broken == "tomlnull" && c.Enc == "toml" {
@@ -298,7 +341,10 @@ func runCase(c Case) (res evid.Result) {
 		b, _ := os.ReadFile(filepath.Join(dir, outFile))
 		text = string(b)
 	} else {
-		expArgs = append(expArgs, "--out", c.Enc)
+		expArgs = append(expArgs, "--out", c.Enc+c.Qualifier)
+		if c.Qualifier != "" {
+			res.Classes = append(res.Classes, "qualifier")
+		}
 		o, eerr, ecode := run(dir, expArgs...)
 		if ecode != 0 {
 			if c.Broken == "tomlnull" && c.Enc == "toml" {
@@ -413,6 +459,41 @@ func gen(t *rapid.T) Case {
 	for tree.K != "object" || len(tree.O) == 0 {
 		tree = &dgen.Node{K: "object", O: []*dgen.Field{{K: rapid.SampledFrom([]string{"a", "k", "x y", "é"}).Draw(t, "wrapkey"), V: tree}}}
 	}
+	if enc == "toml" && rapid.IntRange(0, 2).Draw(t, "tomlshape") == 0 {
+		// TOML's own structures: a table whose quoted key contains a dot, holding an array of tables
+		// (two or more, with nested tables/arrays of tables), next to dotted and bare keys
+		obj := func(label string) *dgen.Node {
+			n := &dgen.Node{K: "object"}
+			for i := 0; i < rapid.IntRange(1, 2).Draw(t, label+"n"); i++ {
+				k := rapid.SampledFrom([]string{"name", "a.b", "x y", "port", "é"}).Draw(t, label+"k")
+				if lookup(n, k) != nil {
+					continue
+				}
+				var v *dgen.Node
+				switch rapid.IntRange(0, 3).Draw(t, label+"v") {
+				case 0:
+					v = &dgen.Node{K: "int", N: fmt.Sprint(rapid.IntRange(-3, 9000).Draw(t, label+"i"))}
+				case 1:
+					v = &dgen.Node{K: "string", S: rapid.SampledFrom([]string{"", "a", "a.b", "x\ny"}).Draw(t, label+"s")}
+				case 2:
+					v = &dgen.Node{K: "object", O: []*dgen.Field{{K: "in.ner", V: &dgen.Node{K: "bool", B: true}}}}
+				default:
+					v = &dgen.Node{K: "list", L: []*dgen.Node{{K: "object", O: []*dgen.Field{{K: "t", V: &dgen.Node{K: "int", N: "1"}}}}, {K: "object", O: []*dgen.Field{{K: "t", V: &dgen.Node{K: "int", N: "2"}}}}}}
+				}
+				n.O = append(n.O, &dgen.Field{K: k, V: v})
+			}
+			return n
+		}
+		arr := &dgen.Node{K: "list"}
+		for i := 0; i < rapid.IntRange(1, 3).Draw(t, "aot"); i++ {
+			arr.L = append(arr.L, obj(fmt.Sprintf("aot%d", i)))
+		}
+		outer := rapid.SampledFrom([]string{"servers", "se.rvers", "s"}).Draw(t, "outerkey")
+		inner := rapid.SampledFrom([]string{"example.com", "plain", "a.b.c", "with space"}).Draw(t, "innerkey")
+		if lookup(tree, outer) == nil {
+			tree.O = append(tree.O, &dgen.Field{K: outer, V: &dgen.Node{K: "object", O: []*dgen.Field{{K: inner, V: arr}}}})
+		}
+	}
 	c := Case{Tree: tree, Enc: enc,
 		ViaFile: rapid.IntRange(0, 2).Draw(t, "viafile") == 0,
 		Escape:  rapid.IntRange(0, 5).Draw(t, "escape") == 0,
@@ -428,6 +509,26 @@ func gen(t *rapid.T) Case {
 				c.Expr = "sel"
 			}
 		}
+	}
+	if enc == "yaml" && !c.ViaFile && rapid.Bool().Draw(t, "qual") {
+		c.Qualifier = rapid.SampledFrom([]string{"+indentSequences=false", "+indentSequences=false", "+indentSequences", "+indentSequences=true"}).Draw(t, "qualifier")
+		if c.Expr == "" && lookup(tree, "sel") == nil && rapid.Bool().Draw(t, "rootlist") {
+			// layout options matter most for a list at the document root: export one through -e
+			var lists []*dgen.Node
+			for _, f := range tree.O {
+				if f.V.K == "list" {
+					lists = append(lists, f.V)
+				}
+			}
+			if len(lists) == 0 {
+				lists = append(lists, &dgen.Node{K: "list", L: []*dgen.Node{{K: "string", S: "h1"}, {K: "object", O: []*dgen.Field{{K: "k", V: &dgen.Node{K: "list", L: []*dgen.Node{{K: "int", N: "1"}}}}}}}})
+			}
+			tree.O = append(tree.O, &dgen.Field{K: "sel", V: lists[rapid.IntRange(0, len(lists)-1).Draw(t, "whichlist")]})
+			c.Expr = "sel"
+		}
+	}
+	if c.ViaFile && rapid.Bool().Draw(t, "overwrite") {
+		c.Overwrite = true
 	}
 	switch rapid.IntRange(0, 11).Draw(t, "broken") {
 	case 0:
